@@ -4,7 +4,11 @@ from pv import obs_classes as C
 
 KEYS = ['parso.python.errors.ErrorFinder._add_syntax_error', 'parso.python.errors.ErrorFinder._add_indentation_error',
         'parso.normalizer.Issue.__init__', 'parso.python.errors.ErrorFinder.add_issue',
-        'parso.python.errors.ErrorFinder.add_issue#part', 'parso.python.errors.ErrorFinder.visit_leaf#error_leaf']
+        'parso.python.errors.ErrorFinder.add_issue#part', 'parso.python.errors.ErrorFinder.visit_leaf#error_leaf',
+        # coverage of error nodes: the rule registered for error_node files an issue for the line of the following token
+        'parso.normalizer.Rule._get_message', 'parso.python.errors.SyntaxRule._get_message', 'parso.normalizer.Rule.add_issue#syntax',
+        'parso.python.errors._InvalidSyntaxRule.get_node', 'parso.python.errors._InvalidSyntaxRule.is_issue',
+        'parso.normalizer.Rule.feed_node#invalid_syntax']
 
 
 def _effects():
